@@ -378,6 +378,16 @@ def run_store(case):
     cfg_seq = sf.StoreConfig(**kw)
     cfg_par = sf.StoreConfig(read_max_workers=case['rworkers'], read_chunksize=case['rchunk'],
                              write_max_workers=case['wworkers'], write_chunksize=case['wchunk'], **kw)
+    per = case.get('per_label')
+    if per is not None and kw:
+        # a per-label configuration that reads one frame differently (its index column as data): the pool must hand every
+        # task the configuration of its own label
+        special = dict(kw, index_depth=0)
+        lbl = frames[per][0]
+        workers = dict(read_max_workers=case['rworkers'], read_chunksize=case['rchunk'],
+                       write_max_workers=case['wworkers'], write_chunksize=case['wchunk'])
+        cfg_seq = sf.StoreConfigMap({lbl: sf.StoreConfig(**special)}, default=cfg_seq)
+        cfg_par = sf.StoreConfigMap({lbl: sf.StoreConfig(**special, **workers)}, default=cfg_par)
     d = tempfile.mkdtemp(prefix='sfv_c18_')
     fp_seq, fp_par = os.path.join(d, 'seq.zip'), os.path.join(d, 'par.zip')
     res = {}
